@@ -99,9 +99,26 @@ func genPlan(rt *rapid.T) Plan {
 	p.ZeroIWS = rapid.IntRange(0, 3).Draw(rt, "zero_iws") == 0
 	n := rapid.IntRange(4, vk.Pick(30, 200)).Draw(rt, "nops")
 	for i := 0; i < n; i++ {
-		p.Ops = append(p.Ops, genOp(rt, i > n/2))
+		p.Ops = append(p.Ops, genOps(rt, i > n/2)...)
 	}
 	return p
+}
+
+// genOps draws one op of the general mix; a cancel_waiter is, in half of the
+// cases, fused (nowait) with an application-side close (finish how=0, which
+// releases stream quota synchronously) into one scheduling step, in either order.
+func genOps(rt *rapid.T, late bool) []Op {
+	op := genOp(rt, late)
+	if op.K != opCancelWaiter || rapid.Bool().Draw(rt, "fused") {
+		return []Op{op}
+	}
+	fin := Op{K: opFinish, S: rapid.IntRange(0, 15).Draw(rt, "s"), Cnt: rapid.SampledFrom([]int{1, 1, 2}).Draw(rt, "cnt"), How: howCancel}
+	if rapid.Bool().Draw(rt, "close_first") {
+		fin.NoWait = true
+		return []Op{fin, op}
+	}
+	fin.NoWait, op.NoWait = op.NoWait, true
+	return []Op{op, fin}
 }
 
 // genOp draws one op of the general mix; late allows goaway / close.
@@ -109,7 +126,7 @@ func genOp(rt *rapid.T, late bool) Op {
 	var op Op
 	w := rapid.IntRange(0, 99).Draw(rt, "w")
 	switch {
-	case w < 33:
+	case w < 32:
 		op = Op{K: opNew}
 		if rapid.IntRange(0, 3).Draw(rt, "has_dl") == 0 {
 			op.N = rapid.IntRange(1, 5000).Draw(rt, "dl")
